@@ -87,10 +87,11 @@ def _encode_builtin_double(buffer: "_Buffer", type: "ref:DoubleType", data: "dyn
 
 
 # ---------------------------------------------------------------- enums
-@assumed("fcp.specs.enum:Enum.max")
+@contract("fcp.specs.enum:Enum.max")
 def enum_max(self: "ref:Enum") -> "int":
-    note("builtins max(map(lambda e: e.value, xs), default=0): the largest value, 0 for an empty list")
+    note("builtin max/map are modelled by the recursive maximum py_max (spec/builtins.py); lemma max_is_enum_max links it to the spec")
     requires(enum_values_ok(self))
+    use_lemma(max_is_enum_max(self, len(self.enumeration)))
     ensures(result == enum_max_from(self.enumeration, len(self.enumeration)) and result >= 0)
 
 
